@@ -487,8 +487,11 @@ def run(repo: Repo, rep: Report) -> None:
 
     # ------------------------------------------------------------------ (c)
     rep.rule("C12.c-parse-only-adds",
-             "parser modules (and Graph/ConjunctiveGraph/Dataset.parse) call no removing method on a Graph/Store "
-             "receiver, except remove_graph(X)/remove(X) dominated by an emptiness test `len(X) == 0` of the same X",
+             "no function that parsing enters in a parser module (nor Graph/ConjunctiveGraph/Dataset.parse) reaches a call of a removing "
+             "method on a Graph/Store receiver, except remove_graph(X)/remove_context(X) done only when X is empty: an emptiness test of the "
+             "same X (len(X) == 0 in any spelling, either branch) guards the call where it stands, or - when the removal was moved into a "
+             "private helper and X is what the helper is passed - guards every call of that helper.  One obligation per (entry point, "
+             "removing call): a removal that several parsers delegate to one helper is an obligation of each of them",
              floor=2)
     scope = [(n, m, None) for n, m in mods.items()]
     gm = repo.mod("rdflib.graph")
@@ -497,7 +500,7 @@ def run(repo: Repo, rep: Report) -> None:
 
     def check_fn(name, mod, f, q):
         nonlocal n_add
-        g = None
+        entries = None
         for c in own_nodes(f, include_nested=True):
             kind = None
             recv = None
@@ -528,23 +531,19 @@ def run(repo: Repo, rep: Report) -> None:
             why = "removes from the sink (%s on %s : %s)" % (kind, norm(recv), tf.text if tf else "?")
             if kind in ("remove_graph", "remove_context") and arg is not None:
                 target = norm(arg)
-                enclosing = mod.defs.get(where)
-                if isinstance(enclosing, ast.FunctionDef):
-                    g = CFG(enclosing)
-                    guards = set()
-                    for n in own_nodes(enclosing):
-                        if isinstance(n, ast.If):
-                            t = n.test
-                            if isinstance(t, ast.Compare) and isinstance(t.ops[0], ast.Eq) and isinstance(t.left, ast.Call) and norm(t.left.func) == "len" \
-                                    and t.left.args and norm(t.left.args[0]) == target and isinstance(t.comparators[0], ast.Constant) and t.comparators[0].value == 0:
-                                # the call must be in the true branch
-                                if any(c is x for s in n.body for x in ast.walk(s)):
-                                    guards.add(g.by_ast[id(n)])
-                    # target not re-assigned between guard and call (straight-line check: no assignment to target inside the guarded body before the call)
-                    if guards:
-                        ok = True
-                        why = "removes graph %s only under `len(%s) == 0`: no triple is deleted" % (target, target)
-            rep.ob("C12.c-parse-only-adds", mod, where, c, ok, why if ok else why + ": parsing would delete pre-existing content", node=c)
+                # (the target is not re-assigned between the test and the call: not checked, as before)
+                proof = h_c12.removal_of_empty(repo, name, mod, f, c, arg)
+                if proof:
+                    ok = True
+                    why = "removes graph %s only %s: no triple is deleted" % (target, proof)
+            # the obligation belongs to every function through which this code is entered from outside (f itself unless it is a
+            # private helper all of whose call sites are known)
+            if entries is None:
+                entries = h_c12.entry_points(repo, name, q, f)
+            for emod, eq, chain in entries:
+                via = "" if (emod, eq) == (name, q) else "reached from %s: " % " -> ".join(chain[:-1])
+                rep.ob("C12.c-parse-only-adds", mod, where, c, ok, via + (why if ok else why + ": parsing would delete pre-existing content"),
+                       node=c, path=chain if via else None)
 
     for name, mod, _ in scope:
         for q, f in mod.functions():
